@@ -51,6 +51,17 @@ class Setup:
             self.sendp = {1: p}
             self.recvp = p
             self.nlanes = 1
+        elif kind == 'userloop':
+            # a user-defined port as docs/ports/custom.rst describes: _send() keeps the
+            # message object it is given (a loopback queue)
+            class Loop(mp.BaseIOPort):
+                def _send(self, message):
+                    self._messages.append(message)
+            p = Loop('loop')
+            self.q = S.instrument(p)
+            self.sendp = {1: p}
+            self.recvp = p
+            self.nlanes = 1
         elif kind == 'device':
             WirePort = S.make_wire_port_class()
             w = S.Wire()
@@ -92,6 +103,23 @@ class Setup:
             self.sendp = {1: p}
             self.recvp = p
             self.nlanes = 1
+        elif kind == 'server':
+            # a real PortServer on the loopback interface with ONE connection waiting to
+            # be accepted; accept() on the listening socket is given a time limit so that
+            # a call that would wait for ever raises instead
+            import socket
+            import select
+            from mido.sockets import PortServer
+            p = PortServer('127.0.0.1', 0)
+            p._socket.settimeout(1.0)
+            self.client = socket.create_connection(p._socket.getsockname(), timeout=5)
+            for _ in range(200):
+                if select.select([p._socket], [], [], 0.05)[0]:
+                    break
+            self.q = S.instrument(p)
+            self.sendp = {1: p}
+            self.recvp = p
+            self.nlanes = 1
         elif kind == 'pqueue':
             # the thread-safe parser queue used by callback-driven backends:
             # "send" = the device thread delivering the bytes of one message
@@ -130,6 +158,24 @@ class Setup:
         else:
             raise ValueError(kind)
         self.keep.append(p)
+        # how often each device is released: the ports whose _close talks to a device
+        # (for the IOPort wrapper these are the wrapped ports)
+        self.releases = {}
+        devs = [p]
+        if kind == 'ioport':
+            devs = [inp, outp]
+        for i, d in enumerate(devs):
+            if not hasattr(d, '_close'):
+                continue
+            self.releases[i] = 0
+
+            def counting_close(*a, _i=i, _orig=d._close, **k):
+                self.releases[_i] += 1
+                return _orig(*a, **k)
+            try:
+                d._close = counting_close
+            except Exception:
+                pass
         for mid in initq:
             import collections
             collections.deque.append(self.q, make_msg(mid, sender_of[mid]))
@@ -146,7 +192,28 @@ class Setup:
         return [msg_id(m, sender_of) for m in self.q.raw()]
 
     def close(self):
+        class _Null:
+            def __enter__(self):
+                return self
+
+            def __exit__(self, *a):
+                return False
+        if self.kind == 'server':
+            try:
+                self.client.close()
+                for sp in self.recvp.ports:
+                    sp._lock = _Null()
+                    sp.close()
+                    sp._rfile.close()
+                    sp._wfile.close()
+                self.recvp._socket.close()
+            except Exception:
+                pass
         for p in self.keep:
+            try:
+                p._lock = _Null()        # a later __del__ -> close() must not enter the scheduler
+            except Exception:
+                pass
             try:
                 p.closed = True
             except Exception:
@@ -332,7 +399,7 @@ def run_program(kind, initq, prog, schedule=None, rng=None, policy='random',
     sent = sorted(op['m'] for ops in prog for op in ops if op['op'] == 'send') + sorted(initq)
     return {'results': results, 'events': events, 'final_q': final_q, 'divergences': div,
             'hung': hung, 'optrace': sc.trace, 'drained': drained, 'sent': sorted(sent),
-            'choices': choices}
+            'choices': choices, 'releases': sorted(setup.releases.values())}
 
 
 def direct_verdict(run):
